@@ -101,7 +101,8 @@ def convert(model: nn.Module, input_example: Any, conversion_type: str,
     add_node_properties(mod)
     if conversion_type in ('autoimport', 'export'):
         # dictionary of shared feature maskers. Used only in 'autoimport' mode.
-        sm_dict = {} if conversion_type != 'autoimport' else build_shared_features_map(mod)
+        sm_dict = {} if conversion_type != 'autoimport' else build_shared_features_map(
+            mod, exclude_names, exclude_types)
         convert_layers(mod, conversion_type, sm_dict, exclude_names, exclude_types, fold_bn)
     if conversion_type in ('autoimport', 'import'):
         fuse_pit_modules(mod, fold_bn)
@@ -156,13 +157,20 @@ def convert_layers(mod: fx.GraphModule,
     return
 
 
-def build_shared_features_map(mod: fx.GraphModule) -> Dict[fx.Node, PITFeaturesMasker]:
+def build_shared_features_map(mod: fx.GraphModule,
+                              exclude_names: Iterable[str] = (),
+                              exclude_types: Iterable[Type[nn.Module]] = (),
+                              ) -> Dict[fx.Node, PITFeaturesMasker]:
     """Create a map from fx.Node instances to instances of PITFeaturesMasker to be used by PIT
     to optimize the number of features of that node. Handles the sharing of masks among
     multiple nodes.
 
     :param mod: the fx-converted GraphModule
     :type mod: fx.GraphModule
+    :param exclude_names: the names of `model` submodules that should be ignored by the NAS
+    :type exclude_names: Iterable[str], optional
+    :param exclude_types: the types of `model` submodules that should be ignored by the NAS
+    :type exclude_types: Iterable[Type[nn.Module]], optional
     :return: a map (node -> feature masker)
     :rtype: Dict[fx.Node, PITFeaturesMasker]
     """
@@ -193,6 +201,13 @@ def build_shared_features_map(mod: fx.GraphModule) -> Dict[fx.Node, PITFeaturesM
     for n in nodes_to_remove:
         sharing_graph.remove_node(n)
 
+    # a layer excluded from the NAS keeps its static number of input and output features
+    exclude_types = tuple(exclude_types)
+
+    def excluded_layer(n: fx.Node) -> bool:
+        return is_layer(n, mod, tuple(pit_layer_map.keys())) and exclude(
+            n, mod, exclude_names, exclude_types)
+
     # each weakly connected component of the sharing graph must share the same features masker
     sm_dict = {}
     for c in nx.weakly_connected_components(sharing_graph):
@@ -202,11 +217,13 @@ def build_shared_features_map(mod: fx.GraphModule) -> Dict[fx.Node, PITFeaturesM
             # such as a convolution. Nodes such as flatten/squeeze/view/etc make this necessary
             if n.meta['features_defining'] or n.meta['untouchable'] and sm is None:
                 # distinguish the case in which the number of features must "frozen"
-                # i.e. the case of input-connected or output-connected components,
+                # i.e. the case of input-connected or output-connected components, and of
+                # components that contain or feed a layer excluded from the NAS
                 if (
                     any(n in get_graph_inputs(mod.graph) for n in c) or
                     any(n in get_graph_outputs(mod.graph) for n in c) or
-                    any(n.meta.get('output_connected', False) for n in c)
+                    any(n.meta.get('output_connected', False) for n in c) or
+                    any(excluded_layer(n) or any(excluded_layer(u) for u in n.users) for n in c)
                 ):
                     sm = PITFrozenFeaturesMasker(n.meta['tensor_meta'].shape[1])
                 else:
